@@ -135,13 +135,13 @@ def _axes_nd(idx, scale=1.0, swap=False):
     return out
 
 
-def _mesh(axes, dims=None, subregions=None, swap=False):
+def _mesh(axes, dims=None, subregions=None, swap=False, units=None):
     p1 = tuple(a[0] for a in axes)
     p2 = tuple(a[1] for a in axes)
     if swap:
         p1, p2 = tuple(p2[:1] + p1[1:]), tuple(p1[:1] + p2[1:])
     n = tuple(a[2] for a in axes)
-    return df.Mesh(region=df.Region(p1=p1, p2=p2, dims=dims), n=n, subregions=subregions)
+    return df.Mesh(region=df.Region(p1=p1, p2=p2, dims=dims, units=units), n=n, subregions=subregions)
 
 
 _CACHE = {}
@@ -799,6 +799,9 @@ def _do_plane(ctx, geo, mesh, field, ax, probe, with_mesh=True):
             exp_dims = tuple(mesh.region.dims[k] for k in rest)
             if rm.region.ndim != len(rest) or tuple(rm.region.dims) != exp_dims:
                 ctx.fail(f"{site}/wrong-axis-removed", f"result dims {tuple(rm.region.dims)} expected {exp_dims}")
+            elif tuple(rm.region.units) != tuple(mesh.region.units[k] for k in rest):
+                ctx.fail(f"{site}/remaining-axes-lost-their-units", f"result units {tuple(rm.region.units)}, the remaining axes "
+                         f"{exp_dims} have units {tuple(mesh.region.units[k] for k in rest)}")
             else:
                 maps, good = [None] * geo.ndim, True
                 for r_ax, s_ax in enumerate(rest):
@@ -843,7 +846,9 @@ def unit_plane(ctx):
     layout = ctx.choose("layout", ["none", "touching"])
     swap = ctx.choose("swapped-corners", [False, True]) if nd == 2 else False
     if layout == "none":
-        mesh = _mesh(axes, dims, swap=swap)
+        # pairwise distinct units: the remaining axes keep THEIR units (a unit taken by position shows)
+        un = ctx.choose("units", ["default", "distinct"])
+        mesh = _mesh(axes, dims, swap=swap, units=None if un == "default" else C.UNITS_DISTINCT[:nd])
     else:
         if swap:
             raise Skip()
